@@ -2,7 +2,7 @@
 import os
 import re
 
-from .. import irclone
+from .. import irclone, passcheck
 from ..common import NCPU, SPECS, MachineryError
 
 LEVEL = "model_checking"
@@ -33,6 +33,9 @@ def run(ctx):
     ctx.evaluations += stats.get("calls", 0)
     for k in kinds:
         ctx._distinct.add(k)
+    os.unlink(res.out_path)
+    # last clause of the statement: a functionalized pass never alters its input model
+    passcheck.functionalize_stage(ctx, 1200 if ctx.tier == "thorough" else 240)
     ctx.extra["divergences"] = divs
     ctx.extra["states_unreachable_on_code"] = stats.get("pre_mismatch", 0)
     ctx.extra["clone_api_variants"] = ["Graph.clone", "GraphView.clone", "Model.clone", "Function.clone"]
@@ -49,6 +52,14 @@ def run(ctx):
 
 
 def replay(ctx, detail) -> bool:
+    if detail.get("kind") == "functionalize":
+        from .. import passrun
+
+        out = passrun.run_functionalized(detail["program"], detail["program_id"])
+        bad = [a for a in out["apps"] if a["id"].split(":", 1)[1] == detail["passes"]
+               and not a["a"]["funcRaised"] and not (a["a"]["funcInputSame"] and a["a"]["funcFresh"])]
+        print("functionalize(", detail["passes"], "):", [a["a"] for a in out["apps"] if a["id"].split(":", 1)[1] == detail["passes"]])
+        return bool(bad)
     r = irclone.CloneReplayer(NAMES4, CONSTS4)
     rec = dict(h=detail["history"], pre=None, rows=[])
     u = r.build(detail["history"])
